@@ -585,6 +585,9 @@ fn attrs_text(tcx: TyCtxt<'_>, did: DefId) -> J {
         let hir_id = tcx.local_def_id_to_hir_id(l);
         let sm = tcx.sess.source_map();
         for a in tcx.hir_attrs(hir_id) {
+            if std::env::var("FACTGEN_DEBUG_ATTRS").is_ok() {
+                eprintln!("ATTR {:?}: {:?}", did, a);
+            }
             match a {
                 rustc_hir::Attribute::Unparsed(item) => {
                     let sp = item.span;
@@ -675,6 +678,7 @@ fn dump(tcx: TyCtxt<'_>, out_dir: &str) {
                         ("name", J::Str(v.name.to_string())),
                         ("fields", J::Arr(fields)),
                         ("attrs", attrs_text(tcx, v.def_id)),
+                        ("line", J::Int(loc(tcx, tcx.def_span(v.def_id)).1)),
                     ]));
                 }
                 adts.push(J::Obj(vec![
